@@ -45,6 +45,16 @@ def gen_ops(tier, rng):
                         start = min(start, size)
                         stop = rng.choice([size, size, rng.randint(start, size)])
                         ops.append((f"kern {fam} {xor} {ni} {no} {size} {start} {stop} {rng.randrange(1, 1<<30)}", {"cat": f"rand-{fam}"}))
+    # every kernel with a non-zero start offset (the worker windows of the codec): every input and output pointer must be
+    # advanced by `start`; start a multiple of the kernel block and not; stop inside the buffer
+    for fam in FAMILIES:
+        for xor in (0, 1):
+            for ni in dims:
+                for no in dims:
+                    for (start, extra) in ([(64, 256), (200, 300)] if tier == "quick" else [(64, 256), (200, 300), (32, 64), (4096, 640), (1, 130)]):
+                        size = start + extra + rng.choice([0, 0, 17])
+                        stop = rng.choice([size, size, size - rng.randint(0, 70)])
+                        ops.append((f"kern {fam} {xor} {ni} {no} {size} {start} {stop} {rng.randrange(1, 1<<30)}", {"cat": f"start-{fam}"}))
     # hand-written multiply / xor kernels behind galMulSlice / sliceXor
     for flags in ["-", "2", "3", "a", "5", "g", "x", "23a5gx", "3a"]:
         for xor in (0, 1):
